@@ -357,6 +357,23 @@ func (s *Sim) netActions(acts []Action) []Action {
 	return acts
 }
 
+var syncPointIDs []int
+var syncPointsOnce bool
+
+// syncPoints lists the preemption points placed before synchronisation
+// operations (the instrumenter names them "<file>:<line> sync ...").
+func syncPoints() []int {
+	if !syncPointsOnce {
+		syncPointsOnce = true
+		for i, n := range simrt.PointNames() {
+			if strings.Contains(n, " sync ") {
+				syncPointIDs = append(syncPointIDs, i)
+			}
+		}
+	}
+	return syncPointIDs
+}
+
 // Run drives the scenario to final quiescence or the step cap.
 func (s *Sim) Run(sc Scenario) {
 	s.sc = sc
@@ -364,12 +381,18 @@ func (s *Sim) Run(sc Scenario) {
 	simrt.Install(s.W)
 	s.Start = time.Now()
 	s.fragBudget = 150
-	// swarm: a few function-entry preemption points yield in this run
+	// swarm: a few preemption points yield in this run: function entries and,
+	// half of the time each, the points before synchronisation operations
 	if n := len(simrt.PointNames()); n > 0 {
 		k := []int{0, 0, 0, 1, 2, 4, 8}[s.Ch.Choose(7)]
 		var ids []int
+		sp := syncPoints()
 		for i := 0; i < k; i++ {
-			ids = append(ids, s.Ch.Choose(n))
+			if len(sp) > 0 && s.Ch.Choose(2) == 1 {
+				ids = append(ids, sp[s.Ch.Choose(len(sp))])
+			} else {
+				ids = append(ids, s.Ch.Choose(n))
+			}
 		}
 		s.W.EnablePoints(ids)
 		if k > 0 {
